@@ -46,7 +46,7 @@ def generate(prop, seed, idx, opts):
     return rec
 
 
-def setup_run(claripy, cfg):
+def setup_run(claripy, cfg, light=False):
     b = claripy.backends
     for x in (b.z3, b.concrete, b.vsa):
         x.downsize()
@@ -58,7 +58,8 @@ def setup_run(claripy, cfg):
     b.z3.reuse_z3_solver = bool(cfg.get("reuse", False))
     if getattr(b.z3._tls, "solver", None) is not None:
         b.z3._tls.solver = None
-    gc.collect()
+    if not light:
+        gc.collect()
     install_serial_hash(claripy, cfg.get("salt", 0))
 
 
@@ -108,15 +109,24 @@ def execute_fault_enum(rec):
     digests = [res["digest"]]
     variants = 0
     positions = 0
+    cap = fe.get("max_positions")
     for t in fe["targets"]:
         c = res["checks_per_op"].get(str(t), 0)
-        positions += c
-        for j in range(1, c + 1):
+        js = list(range(1, c + 1))
+        if cap and c > cap:
+            # quick tier: first and last positions plus an even spread (the thorough tier enumerates all of them)
+            head, tail = js[:cap // 3], js[-(cap // 3):]
+            mid = js[cap // 3:-(cap // 3)]
+            step = max(1, len(mid) // (cap - len(head) - len(tail)))
+            js = sorted(set(head + tail + mid[::step][:cap - len(head) - len(tail)]))
+        positions += len(js)
+        total["fault_positions_skipped"] = total.get("fault_positions_skipped", 0) + (c - len(js))
+        for j in js:
             for kind in fe["kinds"]:
                 for phase in fe["phases"]:
                     v = dict(base)
                     v["faults"] = [{"op": t, "nth": j, "kind": kind, "phase": phase}]
-                    r = execute_one(v)
+                    r = execute_one(v, light=True)
                     variants += 1
                     digests.append(r["digest"])
                     fired_all.extend(r.get("fired") or [])
@@ -140,11 +150,11 @@ def execute_fault_enum(rec):
     return out
 
 
-def execute_one(rec, want_checks=False):
+def execute_one(rec, want_checks=False, light=False):
     import claripy
 
     cfg = rec["config"]
-    setup_run(claripy, cfg)
+    setup_run(claripy, cfg, light)
     seam = Z3Seam()
     seam.install()
     m = Machine(rec, claripy, seam)
